@@ -227,6 +227,9 @@ struct ParallelSumFoldState<F, G> {
     partial_output: Vec<F>,
     /// Sum accumulator.
     partial_sum: Vec<F>,
+    /// Verification-only identifier of this fold state.
+    #[cfg(prio_verif)]
+    verif_id: usize,
 }
 
 #[cfg(feature = "multithreaded")]
@@ -240,6 +243,8 @@ impl<F, G> ParallelSumFoldState<F, G> {
             inner: gadget.clone(),
             partial_output: vec![F::zero(); length],
             partial_sum: vec![F::zero(); length],
+            #[cfg(prio_verif)]
+            verif_id: crate::verif::parsum::new_state(),
         }
     }
 }
@@ -268,6 +273,13 @@ where
             .fold(
                 || ParallelSumFoldState::new(&self.serial_sum.inner, outp.len()),
                 |mut state, chunk| {
+                    #[cfg(prio_verif)]
+                    crate::verif::parsum::fold(
+                        state.verif_id,
+                        chunk.as_ptr() as usize,
+                        inp.as_ptr() as usize,
+                        std::mem::size_of_val(chunk),
+                    );
                     state
                         .inner
                         .eval_poly(&mut state.partial_output, chunk)
